@@ -42,7 +42,7 @@ def main():
     patches = []
     for d in sys.argv[1:]:
         patches += sorted(glob.glob(os.path.join(d, "*", "patch.diff")))
-    with ThreadPoolExecutor(max_workers=4) as ex:
+    with ThreadPoolExecutor(max_workers=12) as ex:
         res = list(ex.map(lambda t: one(t[1], t[0]), enumerate(patches)))
     bad = 0
     for patch, out in res:
